@@ -35,7 +35,7 @@ CHAINS = {
         "map": ("post_transform", r"is_some\(self\.post_transform\)"),
         "and_then": ("post_transform", r"is_some\(self\.post_transform\)"),
         "multiple": ("multiple", r"is_some\(self\.multiple\)"),
-        "flatten": ("flatten", r"is_present\(self\.flatten\)"),
+        "flatten": ("flatten", r"is_some\(self\.flatten\.0\)"),
     },
     "input_variant::InputVariant": {
         "rename": ("attr_name", r"is_some\(self\.attr_name\)"),
@@ -151,7 +151,7 @@ def run(ctx):
     if f:
         errs = errors_of(ctx, f)
         for name, set_atom in FLATTEN_CONFLICTS.items():
-            a = [e for e in errs if e[1] == "custom" and any(ctx._sat(d, opt_atom(name, "True")) and ctx._sat(d, r"is_present\(self\.flatten\)=True") for d in ctx.pc_strs(f, e[0]))]
+            a = [e for e in errs if e[1] == "custom" and any(ctx._sat(d, opt_atom(name, "True")) and ctx._sat(d, r"is_some\(self\.flatten\.0\)=True") for d in ctx.pc_strs(f, e[0]))]
             b = [e for e in errs if e[1] == "custom" and any(ctx._sat(d, opt_atom("flatten", "True")) and ctx._sat(d, set_atom) for d in ctx.pc_strs(f, e[0]))]
             ctx.ob("C10.G.conflict-both-orders", f.key, "flatten x %s (in the `%s` branch)" % (name, name), len(a) == 1, "%d guarded errors" % len(a))
             ctx.ob("C10.G.conflict-both-orders", f.key, "flatten x %s (in the `flatten` branch)" % name, len(b) == 1, "%d guarded errors" % len(b))
@@ -172,10 +172,10 @@ def run(ctx):
     f = ctx.fn(PN % "input_variant::InputVariant")
     if f:
         errs = errors_of(ctx, f)
-        w = [e for e in errs if any(ctx._sat(d, opt_atom("word", "True")) and ctx._sat(d, r"is_unit\(self\.data\)=False") for d in ctx.pc_strs(f, e[0]))]
+        w = [e for e in errs if any(ctx._sat(d, opt_atom("word", "True")) and ctx._sat(d, ("ne", r"^discr\(self\.data\.style\)$", "Unit")) for d in ctx.pc_strs(f, e[0]))]
         ctx.ob("C10.G.word-only-on-unit", f.key, "word on a non-unit variant", len(w) == 1, "%d guarded errors" % len(w))
         for blk, i, st in ctx.find_field_assigns(f, "word", 1):
-            ctx.requires("C10.G.word-only-on-unit", f, blk, "store of `word`", [r"is_unit\(self\.data\)=True"])
+            ctx.requires("C10.G.word-only-on-unit", f, blk, "store of `word`", [r"^discr\(self\.data\.style\)=Unit$"])
 
     # ------------------------------------------------------------ body rules
     vb = "<darling_core::options::%s as darling_core::options::ParseData>::validate_body"
@@ -196,7 +196,7 @@ def run(ctx):
 
         def has(*rx):
             return [p for p in pushes if p[2] and all(all(ctx._sat(d, r) for r in rx) for d in p[2])]
-        ctx.ob("C10.G.from-word-on-unit", f.key, "from_word on a unit struct", len(has(r"discr\(self\.base\.data\)=Struct", r"is_some\(self\.from_word\)=True", r"is_unit\(.*\)=True")) == 1, "guarded error")
+        ctx.ob("C10.G.from-word-on-unit", f.key, "from_word on a unit struct", len(has(r"discr\(self\.base\.data\)=Struct", r"is_some\(self\.from_word\)=True", r"discr\(.*\.style\)=Unit$")) == 1, "guarded error")
         ctx.ob("C10.G.from-word-on-newtype", f.key, "from_word on a newtype struct", len(has(r"discr\(self\.base\.data\)=Struct", r"is_some\(self\.from_word\)=True", r"is_newtype\(.*\)=True")) == 1, "guarded error")
         ctx.ob("C10.G.word-with-from-word", f.key, "word + from_word", len(has(r"discr\(self\.base\.data\)=Enum", r"is_some\(self\.from_word\)=True", r"is_empty\(.*\)=False")) == 1, "guarded error")
         ctx.ob("C10.G.single-word", f.key, "more than one word variant", len(has(r"discr\(self\.base\.data\)=Enum", r"Gt\(len\(.*\), 1_usize\)=True")) == 1, "guarded error")
